@@ -40,9 +40,9 @@ LINEAR_PAIRS = [('LinearGAM', 'normal', 'identity'), ('GAM', 'normal', 'identity
 def gen_jobs(rng, tier):
     """list of job dicts (picklable): a fitgen case + the kind of transformation + its own sub-seed"""
     if tier == 'quick':
-        n_general, n_linear = 2, 9          # x 13 pairs x 3 kinds ; x 2 kinds
+        n_general, n_linear = 3, 12         # x 13 pairs x 3 kinds ; x 2 kinds
     else:
-        n_general, n_linear = 14, 60
+        n_general, n_linear = 24, 100
     jobs = []
     base = fitgen.gen_cases(rng, n_general * len(fitgen.PAIRS) * 3, tier)
     for i, c in enumerate(base):
@@ -74,7 +74,10 @@ def _build(case, pygam):
         c['weights_mode'] = 'int'
     if c['n_mode'] == 'mid2':
         c['n_mode'] = 'mid'
-    return fitgen.build(c, pygam)
+    b = fitgen.build(c, pygam)
+    if b['gam'].terms.hasconstraint:
+        b['gam'].max_iter = 60      # constrained PIRLS converges quickly or cycles; tensor constraints cost ~0.2 s per iteration
+    return b
 
 
 # ---------------------------------------------------------------------------------------------------------
